@@ -41,8 +41,9 @@ type FDCase struct {
 	Retry     int    `json:"retry"`
 	FailFirst int    `json:"fail_first"` // primary answers 503 to that many requests, then accepts; -1 = always 503
 	DQRetry   int    `json:"dq_retry"`
-	// FailStatus: what the primary answers when it refuses (0 = 503). A redirect is not a delivery either:
-	// the outputs' HTTP client does not follow redirects.
+	// FailStatus: what the primary answers when it refuses (0 = 503). A redirect is not a delivery either
+	// (the outputs' HTTP client does not follow redirects), nor is 429 (back-pressure) or 408: only 400 and 413
+	// are documented as answers the elasticsearch output gives up on at once.
 	FailStatus int `json:"fail_status,omitempty"`
 }
 
@@ -55,7 +56,7 @@ func genFD(t *rapid.T) FDCase {
 		Retry:      rapid.IntRange(0, 2).Draw(t, "retry"),
 		DQRetry:    rapid.IntRange(0, 3).Draw(t, "dq_retry"),
 		FailFirst:  rapid.SampledFrom([]int{-1, -1, -1, 0, 1, 2, 4}).Draw(t, "fail_first"),
-		FailStatus: rapid.SampledFrom([]int{503, 503, 500, 502, 308, 301, 302}).Draw(t, "fail_status"),
+		FailStatus: rapid.SampledFrom([]int{503, 503, 500, 502, 308, 301, 302, 429, 429, 408}).Draw(t, "fail_status"),
 	}
 	switch rapid.IntRange(0, 4).Draw(t, "dq") {
 	case 0:
